@@ -25,6 +25,7 @@ func init() {
 
 func ruleCharUnit(c *Ctx) {
 	runesRoundTrip(c)
+	runeSearchGuarded(c)
 	fns := c.srcFuncs("interp")
 	// blocks dominated by `chars` being true
 	type region struct {
@@ -201,4 +202,63 @@ func runesRoundTrip(c *Ctx) {
 		})
 	}
 	c.atLeast("functions scanned for a string->runes->string round trip", nFn, 50)
+}
+
+// runeSearchGuarded (part of R-CHARUNIT, C10): a rune obtained by decoding program data is utf8.RuneError both for the
+// valid character U+FFFD and for every invalid byte; searching for it with strings.IndexRune (or ContainsRune/IndexFunc)
+// finds the first invalid byte of any kind. A decoded rune that reaches such a search has been compared with
+// utf8.RuneError (65533) on the way. Expected count: zero searches of this kind on today's tree.
+func runeSearchGuarded(c *Ctx) {
+	n := 0
+	for _, fn := range c.srcFuncs("interp") {
+		fn := fn
+		n++
+		allInstrs(fn, func(in ssa.Instruction) {
+			call, ok := in.(*ssa.Call)
+			if !ok {
+				return
+			}
+			f := calleeObj(call)
+			if f == nil {
+				return
+			}
+			switch funcFullName(f) {
+			case "strings.IndexRune", "strings.ContainsRune", "bytes.IndexRune", "bytes.ContainsRune", "strings.LastIndexRune":
+			default:
+				return
+			}
+			if len(call.Call.Args) < 2 {
+				return
+			}
+			// does the rune come from a decode?
+			r := call.Call.Args[1]
+			ex, ok := r.(*ssa.Extract)
+			if !ok {
+				return
+			}
+			dc, ok := ex.Tuple.(*ssa.Call)
+			if !ok {
+				return
+			}
+			df := calleeObj(dc)
+			if df == nil || !(funcFullName(df) == "unicode/utf8.DecodeRuneInString" || funcFullName(df) == "unicode/utf8.DecodeRune" || funcFullName(df) == "unicode/utf8.DecodeLastRuneInString") {
+				return
+			}
+			guarded := false
+			if refs := ex.Referrers(); refs != nil {
+				for _, u := range *refs {
+					if bo, ok := u.(*ssa.BinOp); ok {
+						for _, side := range []ssa.Value{bo.X, bo.Y} {
+							if k, ok := side.(*ssa.Const); ok && k.Value != nil && k.Int64() == 65533 {
+								guarded = true
+							}
+						}
+					}
+				}
+			}
+			c.check(guarded, "rune-search:"+fnKey(fn), in.Pos(), "a decoded rune that is searched for has been compared with utf8.RuneError",
+				fnKey(fn)+" searches for a rune it decoded from program data without having compared it with utf8.RuneError: for a needle that is one invalid byte (or U+FFFD) the search finds the first invalid byte of any kind, so index(s, t) points at something that is not t and substr(s, index(s,t), length(t)) != t")
+		})
+	}
+	c.atLeast("functions scanned for searches of decoded runes", n, 50)
 }
